@@ -298,6 +298,18 @@ def head_case(res, W, rng):
         if d.get("interim"):
             base = d
         d = base
+    if rng.random() < 0.06:
+        # both tokens in one of the two headers while the other header is missing, empty or names something else: each header has to
+        # make its own announcement
+        d = {"status": 101, "accept": "right", "offered": off, "selected": ("chat" if off else None), "reason": "Switching Protocols",
+             "name_case": rng.random() < 0.3, "dup": False, "shuffle": rng.random() < 0.3}
+        both = rng.choice(["websocket, upgrade", "Upgrade, WebSocket", "upgrade,websocket", "websocket, Upgrade, keep-alive"])
+        other = rng.choice([None, "", "close", "keep-alive", "h2c", "foo"])
+        if rng.random() < 0.5:
+            d.update(upgrade=both, connection=other)
+        else:
+            d.update(upgrade=other, connection=both)
+        res.count("heads_with_both_tokens_in_one_header")
     if rng.random() < 0.1:
         d = {"status": 101, "upgrade": "websocket", "connection": "Upgrade", "accept": "right", "offered": off, "selected": ("chat" if off else None),
              "reason": "Switching Protocols", "name_case": rng.random() < 0.3, "dup": False, "shuffle": rng.random() < 0.3}
@@ -325,6 +337,16 @@ def head_case(res, W, rng):
     # the offered subprotocols as a list, a tuple or a one-shot iterable (the request offers them all the same)
     container = rng.choice(["list", "list", "tuple", "iterator", "generator"]) if off else "list"
     opts = {"subprotocols": {"list": list, "tuple": tuple, "iterator": iter, "generator": lambda o: (x for x in o)}[container](off)} if off else {}
+    str_sub = None
+    if not d.get("smuggle") and not d.get("interim") and rng.random() < 0.05:
+        # the option given as one plain string: whatever that is taken to offer (the name, or its letters), a server selecting a piece
+        # of the name that is neither the whole name nor a single letter has selected nothing that was offered
+        d = {"status": 101, "upgrade": "websocket", "connection": "Upgrade", "accept": "right", "offered": None, "reason": "Switching Protocols", "name_case": False,
+             "dup": False, "shuffle": False, "selected": rng.choice(["chat", "super", "erch", "uperchat", "superchat", "s", "SUPER"])}
+        str_sub = "superchat"
+        opts = {"subprotocols": str_sub}
+        container = "str"
+        res.count("subprotocols_as:str")
     if off:
         res.count("subprotocols_as:" + container)
     # a previous connection, so that "prev-key" is a real earlier key
@@ -338,8 +360,12 @@ def head_case(res, W, rng):
     use_create = rng.random() < 0.5
     kind, exc, w = attempt(W, "ws://sim.test/x", use_create, opts)
     exp = verdict(d)
+    if str_sub:
+        exp = "unjudged" if (d["selected"] == str_sub or len(d["selected"]) == 1) else "reject"
     case = {k: v for k, v in d.items()}
     case["subprotocols_container"] = container
+    if str_sub:
+        case["subprotocols_option"] = str_sub
     if container in ("iterator", "generator") and exp == "accept":
         # a one-shot iterable is used up by writing the request; whether a right selection is then still recognised is not part of the
         # statement (only: never connected without one)
